@@ -327,7 +327,7 @@ CHECKS = {
         ],
         "rule": "one case = 2-3 real devices of a multi-member group (optionally two devices of one member) that activate their group "
                 "context and send 1-8 messages at seeded points while the simulator chooses every delivery of entries and chain-key "
-                "announcements (order, batching, late connection), then anti-entropy to a fixpoint; part C additionally "
+                "announcements (order, batching, drops, duplicates, late connection), then anti-entropy to a fixpoint; part C additionally "
                 "interleaves the goroutines of the message pipeline at every instrumented lock/unlock/select with the seeded "
                 "cooperative scheduler (2 devices, 1-3 messages). non-trivial = at least one simulator-chosen delivery; distinct = "
                 "distinct hash of the trace.",
